@@ -7,7 +7,9 @@ import Driver.C05
 import Driver.C06
 import Driver.C07
 import Driver.C08
+import Driver.C09
 import Driver.C10
+import Driver.C11
 import Driver.C12
 import Driver.C13
 import Driver.C14
@@ -29,7 +31,9 @@ def dispatch (id : String) : Option Handler :=
   | "C06" => some Driver.C06.handle
   | "C07" => some Driver.C07.handle
   | "C08" => some Driver.C08.handle
+  | "C09" => some Driver.C09.handle
   | "C10" => some Driver.C10.handle
+  | "C11" => some Driver.C11.handle
   | "C12" => some Driver.C12.handle
   | "C13" => some Driver.C13.handle
   | "C14" => some Driver.C14.handle
